@@ -421,7 +421,7 @@ func init() {
 			if tier == "thorough" {
 				return seqCases(master, 400000, nil)
 			}
-			return seqCases(master, 2500, nil)
+			return seqCases(master, 6000, nil)
 		},
 		Gen:         func(c Case, pool *Pool) *Plan { return GenCompose("C10", c.Seed, pool) },
 		Components:  composeComponents,
@@ -436,7 +436,7 @@ func init() {
 			if tier == "thorough" {
 				return seqCases(master, 600000, nil)
 			}
-			return seqCases(master, 3000, nil)
+			return seqCases(master, 9000, nil)
 		},
 		Gen:         func(c Case, pool *Pool) *Plan { return GenCompose("C11", c.Seed, pool) },
 		Components:  composeComponents,
